@@ -148,6 +148,37 @@ impl Oracle {
                     ctx.stats.probe("wrong_length_key_buffer_refused_then_valid_derivation");
                 }
             }
+            // ---- reports whose share lies at a CHOSEN point of the same sharing (bit 128 set; the pair
+            // x / x + 2^128): a client may have drawn such a point, and they are as good as any other
+            if (2..=40).contains(&t) && ctx.ch.chance(1, 6) {
+                let mut seen: BTreeSet<BigUint> = BTreeSet::new();
+                let base_rep: Vec<layout::PReport> = idxs.iter().filter_map(|&i| layout::parse_report(&w.delivered[i].bytes)).filter(|r| seen.insert(r.share.x.clone())).take(t).collect();
+                if base_rep.len() == t {
+                    let base: Vec<layout::PShare> = base_rep.iter().map(|r| r.share.clone()).collect();
+                    let small = BigUint::from(1 + ctx.ch.draw(12_000));
+                    let hi = (BigUint::from(1u8) << 128) + &small;
+                    let at = |x: &BigUint| layout::encode_report(&layout::PReport { share: layout::genuine_share_at(&base, x), ..base_rep[0].clone() });
+                    for (what, extra, skip) in [("one report at a point >= 2^128", vec![at(&hi)], 1usize), ("reports at x and x + 2^128", vec![at(&small), at(&hi)], 2)] {
+                        let mut wires: Vec<Vec<u8>> = base_rep[skip..].iter().map(layout::encode_report).collect();
+                        wires.extend(extra);
+                        let xs: BTreeSet<BigUint> = wires.iter().filter_map(|b| layout::parse_report(b)).map(|r| r.share.x).collect();
+                        if xs.len() < t {
+                            continue;
+                        }
+                        let perm = ctx.ch.permutation(wires.len());
+                        let mut shares = Vec::new();
+                        for &pi in &perm {
+                            let m = Message::from_bytes(&wires[pi]).ok_or_else(|| Violation::new("c01.decode", "from_bytes", format!("Message::from_bytes rejected a genuine report whose share point was chosen ({})", what)))?;
+                            shares.push(m.share);
+                        }
+                        match share_recover(&shares) {
+                            Ok(c) if c.get_message() == seed => ctx.stats.probe("recovered_with_chosen_points"),
+                            Ok(_) => return Err(Violation::new("c01.seed", "seed_changed", format!("group {} (t={}): {} genuine reports with distinct points ({}) recovered another message", gid, t, t, what))),
+                            Err(e) => return Err(Violation::new("c01.recover_ok", "recover_err_chosen_point", format!("share_recover failed ({}) for group {} (t={}) on {} genuine reports with distinct points ({})", e, gid, t, t, what))),
+                        }
+                    }
+                }
+            }
             let mut key = vec![0u8; 16];
             derive_ske_key(&seed, &g.epoch, &mut key);
             // ---- every delivered report of the group decrypts to what its client supplied
